@@ -54,8 +54,22 @@ def do_solve(game, prune, obj=None):
         return exc_info(e)
 
 
+def share_rows(game):
+    """the same description spelt with ONE list object for all states whose transition lists are equal
+    (legal Python, equal by value): results must not depend on the spelling"""
+    tl = game.get("transition_list")
+    if isinstance(tl, list):
+        seen = {}
+        for i, row in enumerate(tl):
+            if isinstance(row, list):
+                tl[i] = seen.setdefault(repr(row), row)
+    return game
+
+
 def op_solve(c):
     game = dec(c["game"])
+    if c.get("share"):
+        game = share_rows(game)
     before = copy.deepcopy(game)
     ids = [id(x) for x in game["transition_list"]] if isinstance(game.get("transition_list"), list) else None
     res = do_solve(game, c["prune"])
